@@ -19,6 +19,14 @@ func VerifC14Consistent() {
 	prodName := string([]byte{c1, 'x'})
 	tokName := string([]byte{c2, 'y'})
 	var syms SyntaxSymbols
+	// what stands in front of the references: nothing, the error symbol (a recovery alternative
+	// is an alternative like any other: its symbols are uses), or a defined token
+	switch verifParam("PRE", 0) {
+	case 1:
+		syms = append(syms, errorConst)
+	case 2:
+		syms = append(syms, SyntaxTokId("t"))
+	}
 	if mode == 1 || mode == 3 {
 		syms = append(syms, SyntaxProdId(prodName))
 	}
